@@ -51,6 +51,7 @@ fn main() {
         Some("selftest") => driver::selftest(),
         Some("conformance") => conformance::run(),
         Some("conformance-child") => conformance::child_zombie_leader(),
+        Some("conformance-child-threads") => conformance::child_three_threads(),
         Some("determinism") => {
             let n: u64 = a.get(2).and_then(|s| s.parse().ok()).unwrap_or(2000);
             let props: Vec<String> = if a.len() > 3 { a[3..].to_vec() } else { driver::CLAIMED.iter().map(|s| s.to_string()).collect() };
